@@ -203,7 +203,9 @@ def loop_body_blocks(body, next_block):
             some_edge = cfg.edge_nodes[(tgt, k)]
     if some_edge is None:
         return set()
-    return cfg.reachable_blocks(some_edge, avoid={next_block})
+    cand = cfg.reachable_blocks(some_edge, avoid={next_block})
+    # the body proper: blocks from which the loop header can be reached again (break / return paths are exits)
+    return {x for x in cand if cfg.reaches(x, next_block)}
 
 
 def early_exits(body, next_block, blocks):
